@@ -3,7 +3,7 @@
    Definitions only. *)
 From Coq Require Import PrimFloat ZArith List Bool.
 Import ListNotations.
-Require Import PyBase Solver SolverF SolveAll Tracer TracerSolve TracerNames TracerLinked.
+Require Import PyBase Solver SolverF SolveAll Tracer TracerSolve TracerNames TracerLinked TracerReindex.
 Open Scope Z_scope.
 
 Definition ftrace := trace float.
@@ -13,7 +13,11 @@ Definition ftraces := traces float.
 (* (labels are the integers of the span; the span is a Python list, searched with list.index = SolveAll.locate_index) *)
 Inductive entry : Type :=
 | ESolveT (t : Z) | ESolvePeriod (lab : Z) | ESolve (start end_ : option Z)
-| ETraceT (t : Z) (label : tlabel) | ETracePeriod (lab : Z) (label : tlabel).     (* the public snapshot methods, called directly *)
+| ETraceT (t : Z) (label : tlabel) | ETracePeriod (lab : Z) (label : tlabel)      (* the public snapshot methods, called directly *)
+(* what a user does to the instance BETWEEN solves (histories): `model.V<i> = [...]` (whole-series list assignment: the
+   series is replaced), and model = model.copy() / model.reindex(<the same span>) (a new instance with equal contents:
+   the identity at the level of values, statuses, iteration counts and Trace contents) *)
+| ESetSeries (i : nat) (row : list float) | ENoop.
 Record call := mkCall { k_entry : entry; k_opts : fopts; k_targ : targ; k_reset : bool }.
 Inductive cres : Type := RBool (o : outcome bool) | RSolve (o : outcome (sresult Z)) | RUnit (o : outcome unit).
 Definition unit_res (e : option exn) : cres := match e with None => RUnit (Ret tt) | Some x => RUnit (Raise x) end.
@@ -44,6 +48,8 @@ Definition f_call (sc : scripts) (cfg : tcfg) (span : list Z) (d : mdesc) (c : c
   | ETracePeriod lab label =>
       let '(tr', e) := trace_period_M float cfg (k_targ c) (k_reset c) Z (locate_index span) lab label (vals_of s) tr in
       ((s, tr'), unit_res e)
+  | ESetSeries i row => ((with_vals float s (upd i row (vals_of s)) (log s), tr), RUnit (Ret tt))
+  | ENoop => ((s, tr), RUnit (Ret tt))
   end.
 
 (* the same call without the keywords (the untraced twin): Solver.solve_t_M, SolveAll.solve_period_M, SolveAll.solve_M *)
@@ -61,6 +67,8 @@ Definition f_plain_call (sc : scripts) (span : list Z) (d : mdesc) (c : call) (s
       let '(s', o) := solve_M float PrimFloat.sub PrimFloat.abs PrimFloat.ltb fisfin fzero ev be af Z (locate_index span) d (k_opts c) span start end_ s in
       (s', RSolve o)
   | ETraceT _ _ | ETracePeriod _ _ => (s, RUnit (Ret tt))       (* the twin is left alone: a snapshot method is not a solve *)
+  | ESetSeries i row => (with_vals float s (upd i row (vals_of s)) (log s), RUnit (Ret tt))
+  | ENoop => (s, RUnit (Ret tt))
   end.
 
 (* ---- comparison with the implementation's observation ---- *)
@@ -196,3 +204,32 @@ Definition check_lcase (c : lcase) : bool :=
   let '(u', eu) := plain_passes float ev (l_t c) ERaise false 1 (l_passes c) (l_vals0 c) in
   fvals_eqb v' (l_vals c) && list_eqb trace_eqb tr' (l_traces c) && optZ_eqb e (l_exn c)
   && fvals_eqb u' (l_twin_vals c) && optZ_eqb eu (l_twin_exn c).
+
+(* ---- reindex() / copy() of a traced instance (TracerReindex.v): which cells of the new instance's `_trace` array are
+   None, the very object of the original's period q, or an object of their own; whether a traced solve_t of period 0 through
+   the NEW instance changes the ORIGINAL's Trace of period 0; whether tracing a period that is new raises AttributeError ---- *)
+Record rxcase := mkRx {
+  rx_reindex : bool; rx_n : nat; rx_extra : nat; rx_old : list ftrace;
+  rx_pattern : list (option (option nat));          (* None = None cell; Some (Some q) = the original's object of q; Some None = own *)
+  rx_names : list nat; rx_reset : bool; rx_res : list float;
+  rx_old_changed : bool; rx_new_period_attr : bool }.
+Definition pat_eqb (a b : option (option nat)) : bool :=
+  match a, b with
+  | None, None => true
+  | Some None, Some None => true
+  | Some (Some x), Some (Some y) => Nat.eqb x y
+  | _, _ => false
+  end.
+Definition check_rxcase (c : rxcase) : bool :=
+  let n := rx_n c in
+  let cells0 : list tcell := map Some (seq 0%nat n) in
+  let h0 : theap float := rx_old c in
+  let '(cells1, h1) := if rx_reindex c then (reindex_cells (map Some (seq 0%nat n) ++ repeat None (rx_extra c)) cells0, h0)
+                       else copy_cells float cells0 h0 in
+  let pat := map (fun x : tcell => match x with None => None | Some r => if Nat.ltb r n then Some (Some r) else Some None end) cells1 in
+  let '((_, h2), _) := trace_t_cells float (rx_names c) (rx_reset c) 0%nat LStart (rx_res c) cells1 h1 in
+  let changed := negb (trace_eqb (tderef float h2 0%nat) (tderef float h0 0%nat)) in
+  let '(_, eB) := trace_t_cells float (rx_names c) (rx_reset c) n LStart (rx_res c) cells1 h1 in
+  let attr := match eB with Some AttributeError => true | _ => false end in
+  list_eqb pat_eqb pat (rx_pattern c) && Bool.eqb changed (rx_old_changed c)
+  && (if rx_reindex c && negb (Nat.eqb (rx_extra c) 0%nat) then Bool.eqb attr (rx_new_period_attr c) else true).
